@@ -6,5 +6,5 @@ export GOFLAGS=-mod=mod GOPROXY=off GOSUMDB=off GOTOOLCHAIN=local
 repo=${VERIF_REPO:-/repo}
 w=work/bounded/$(echo "$repo-$2" | tr "/." "__"); mkdir -p $w
 echo "{\"Replace\": {\"$repo/$1/zz_govc_bounded_test.go\": \"$PWD/harness/$2\"}}" > $w/overlay.json
-cd $repo && go test -overlay /verif/$w/overlay.json -vet=off -count=1 -timeout 300s -run "$3" -v ./$1 2>&1 | grep -E "GOVC-BOUNDED|GOVC-REPLAY|^--- FAIL|^FAIL|^ok|violated|panic|^ +(initial|txn|reference|database)[ a-z]*:" | head -40
+cd $repo && go test -overlay /verif/$w/overlay.json -vet=off -count=1 -timeout ${VERIF_BOUNDED_TIMEOUT:-900s} -run "$3" -v ./$1 2>&1 | grep -E "GOVC-BOUNDED|GOVC-REPLAY|^--- FAIL|^FAIL|^ok|violated|panic|^ +(initial|txn|reference|database)[ a-z]*:" | head -40
 exit ${PIPESTATUS[0]}
